@@ -135,7 +135,29 @@ def alias_across_types(ctx, n):
         yield c
 
 
-def correspond(ctx, cases, label='load'):
+class CaseBuffer(list):
+    """collects cases for the correspondence run and flushes them to the model driver in batches, so that
+    a long exploration does not keep every generated class model alive"""
+    def __init__(self, ctx, limit=400, label='load'):
+        list.__init__(self)
+        self.ctx, self.limit, self.label = ctx, limit, label
+
+    def append(self, c):
+        list.append(self, c)
+        if len(self) >= self.limit:
+            self.flush()
+
+    def flush(self):
+        if len(self):
+            batch = list(self)
+            del self[:]
+            correspond(self.ctx, batch, self.label, _flushed=True)
+
+
+def correspond(ctx, cases, label='load', _flushed=False):
+    if isinstance(cases, CaseBuffer) and not _flushed:
+        cases.flush()
+        return
     """run the model on all cases with a request; attach c.m (parsed) and report disagreements"""
     live = [c for c in cases if getattr(c, 'request', None)]
     answers = ctx.driver([c.request for c in live]) if live else []
